@@ -68,6 +68,7 @@ var c42Pkgs = []string{
 func runC42(c *core.Ctx) {
 	nSites := 0
 	seenFn := map[string]bool{}
+	leafKinds := map[string]int{}
 	for _, p := range c42Pkgs {
 		pk := c.P.Pkgs[ir.PkgPath(p)]
 		if pk == nil || pk.SSA == nil {
@@ -100,6 +101,7 @@ func runC42(c *core.Ctx) {
 				continue
 			}
 			allowed, listed := c42Table[name]
+			var helperUsers []*ssa.Function
 			if !listed {
 				// a private helper whose every user is a listed quorum function computes that function's threshold
 				isListed := func(x *ssa.Function) bool { _, l := c42Table[ir.FuncName(x)]; return l }
@@ -114,6 +116,7 @@ func runC42(c *core.Ctx) {
 					for _, u := range users {
 						allowed = append(allowed, c42Table[ir.FuncName(u)]...)
 						seenFn[ir.FuncName(u)] = true
+						helperUsers = append(helperUsers, u)
 					}
 					listed = true
 				}
@@ -164,6 +167,25 @@ func runC42(c *core.Ctx) {
 					}
 				}
 				c.Decide(matched != "", "C42.threshold-formula", fn, "threshold "+tree.String()+" ≡ one of "+strings.Join(allowed, " | "), pos, why)
+				// which count is N?  (block acceptance: the validator set in force, not what the header lists)
+				for _, lv := range c42LeafValues(c, fn, leaf, helperUsers) {
+					switch {
+					case eng.IsLenOf(func(v ssa.Value) bool { p, ok := ir.Strip(v).(*ssa.Parameter); return ok && p.Name() == "vbftPeerInfo" })(lv):
+						leafKinds[name+"|peers"]++
+					case eng.IsLenOf(func(v ssa.Value) bool { return isFieldNamed(v, "Bookkeepers") })(lv):
+						leafKinds[name+"|listed"]++
+					}
+				}
+				for _, u := range helperUsers {
+					for _, lv := range c42LeafValues(c, fn, leaf, helperUsers) {
+						switch {
+						case eng.IsLenOf(func(v ssa.Value) bool { p, ok := ir.Strip(v).(*ssa.Parameter); return ok && p.Name() == "vbftPeerInfo" })(lv):
+							leafKinds[ir.FuncName(u)+"|peers"]++
+						case eng.IsLenOf(func(v ssa.Value) bool { return isFieldNamed(v, "Bookkeepers") })(lv):
+							leafKinds[ir.FuncName(u)+"|listed"]++
+						}
+					}
+				}
 			}
 		}
 	}
@@ -179,6 +201,14 @@ func runC42(c *core.Ctx) {
 		}
 	}
 	c.Floor("threshold division sites", nSites, 13)
+	// verifyHeader: the two vbft formulas range over the validator set in force (len(vbftPeerInfo));
+	// only the non-vbft arm may count the keys the header lists
+	{
+		vh := "(*core/store/ledgerstore.LedgerStoreImp).verifyHeader"
+		np, nl := leafKinds[vh+"|peers"], leafKinds[vh+"|listed"]
+		c.Decide(np >= 2 && nl <= 1, "C42.threshold-operand", vh, "block-acceptance thresholds are computed over N = len(validators in force)", "",
+			sprintf("%d threshold(s) over len(vbftPeerInfo), %d over len(header.Bookkeepers): a quorum sized by what the sender lists can be met by a minority", np, nl))
+	}
 	checkCommitDoneQuorum(c, "C42.commitdone-quorum")
 
 	// (B) intersection
@@ -255,4 +285,32 @@ func sameCount(a, b ssa.Value) bool {
 		}
 	}
 	return false
+}
+
+// c42LeafValues: the count a threshold tree ranges over — the leaf itself, or,
+// when the tree sits in a private helper and the leaf is its parameter, the
+// arguments the listed users pass for it.
+func c42LeafValues(c *core.Ctx, fn *ssa.Function, leaf ssa.Value, users []*ssa.Function) []ssa.Value {
+	if leaf == nil {
+		return nil
+	}
+	p, isP := ir.Strip(leaf).(*ssa.Parameter)
+	if !isP || len(users) == 0 || p.Parent() != fn {
+		return []ssa.Value{leaf}
+	}
+	idx := -1
+	for i, q := range fn.Params {
+		if q == p {
+			idx = i
+		}
+	}
+	var out []ssa.Value
+	for _, u := range users {
+		for _, ci := range ir.Calls(u, func(ci ssa.CallInstruction) bool { return ci.Common().StaticCallee() == fn }) {
+			if a := ci.Common().Args; idx >= 0 && idx < len(a) {
+				out = append(out, a[idx])
+			}
+		}
+	}
+	return out
 }
